@@ -75,6 +75,7 @@ def fam_job(fam, mask, H, W, ys=None, xs=None, **kw):
         raise ValueError(fam)
     data = [[cell(r, c, mask[r][c]) for c in range(W)] for r in range(H)]
     j = {"mode": mode, "H": H, "W": W, "data": data, "dtype": dtype, "list": lst, "list_kind": kind,
+         "zones_style": "bare" if (sum(map(sum, mask)) + H) % 3 == 0 else "pixel",
          "list_float": dtype.startswith("float"), "ys": ys or [10 * (H - r) for r in range(H)],
          "xs": xs or [5 + 3 * c for c in range(W)], "tag": fam}
     j.update(kw)
